@@ -57,6 +57,7 @@ InRange(r, n) == CASE r.ev = "AInsert" -> r.i >= 0 /\ r.i <= n
                     [] OTHER -> TRUE
 Drifted(r) ==
   IF l = 1 \/ r.res.class # "ok" \/ Trace[l - 1].t # r.t \/ ~Plain(Forest(Trace[l - 1])) \/ ~Plain(Forest(r))
+     \/ r.ev \in {"Crash", "AMutIter", "AAppend"}     \* state-changing events that layer C does not transcribe
      \/ ~InRange(r, Len(AFlattenElems(Forest(Trace[l - 1])))) THEN 0
   ELSE IF Shape(LayerC(r, Trace[l - 1])) = Shape(TreeOf(Forest(r))) THEN 0 ELSE 1
 
